@@ -52,6 +52,7 @@ def gen_shim(meta, canaries=None):
     A("void drv_put_bytes(const char *name, const void *p, size_t n, long long counter, int isnull);")
     A("void drv_msg(const char *fmt, const char *name, long long a, long long b);")
     A("void drv_hook(int idx, unsigned inval, void *st);")
+    A("void *__asan_region_is_poisoned(void *beg, size_t size);")
     A(f"const int shim_indirect = {int(indirect)};")
     A(f"const int shim_has_end = {int(has_end)};")
     A(f"const int shim_has_free = {int(has_free)};")
@@ -124,7 +125,7 @@ def gen_shim(meta, canaries=None):
             A("    {")
             A(f"        long long cnt = (long long)s->{n}_counter; size_t n = (size_t)(cnt < 0 ? 0 : cnt); if (n > {cap}) n = {cap};")
             if dyn:
-                A(f"        if (!s->c.{n}) drv_put_bytes(\"{n}\", NULL, 0, cnt, 1); else drv_put_bytes(\"{n}\", s->c.{n}, n, cnt, 0);")
+                A(f"        if (!s->c.{n} || __asan_region_is_poisoned((void *)s->c.{n}, {cap})) drv_put_bytes(\"{n}\", NULL, 0, cnt, 1); else drv_put_bytes(\"{n}\", s->c.{n}, n, cnt, 0);")
             else:
                 A(f"        drv_put_bytes(\"{n}\", s->c.{n}, n, cnt, 0);")
             A("    }")
@@ -146,8 +147,9 @@ def gen_shim(meta, canaries=None):
             A(f'        if (cnt > {eff}) {{ drv_msg("M1:%s:%lld>%lld ", "{n}", cnt, {eff}LL); bad++; }}')
             if dyn:
                 A(f'        if (!s->c.{n} && cnt > 0) {{ drv_msg("M4:%s:null-with-count:%lld:%lld ", "{n}", cnt, 0LL); bad++; }}')
+                A(f'        if (s->c.{n} && __asan_region_is_poisoned((void *)s->c.{n}, {o["str_size"]})) {{ drv_msg("M4D:%s:dangling-or-undersized-heap-pointer:%lld:%lld ", "{n}", cnt, 0LL); bad++; }}')
             if o["str_null"]:
-                guard = f"s->c.{n} && " if dyn else ""
+                guard = f"s->c.{n} && !__asan_region_is_poisoned((void *)s->c.{n}, {o['str_size']}) && " if dyn else ""
                 A(f'        if ({guard}cnt >= 0 && cnt <= {eff} && s->c.{n}[cnt] != 0) {{ drv_msg("M2:%s:unterminated-at:%lld:%lld ", "{n}", cnt, (long long)(unsigned char)s->c.{n}[cnt]); bad++; }}')
             A("    }")
             if dyn:
@@ -167,7 +169,7 @@ def gen_shim(meta, canaries=None):
     A(f"    {T} *s = ({T} *)st; {T} *c = ({T} *)malloc(sizeof({T})); memcpy(c, s, sizeof({T}));")
     for o in dstrs:
         n = o["name"]
-        A(f"    if (s->c.{n}) {{ c->c.{n} = malloc({o['str_size']}); memcpy(c->c.{n}, s->c.{n}, {o['str_size']}); }}")
+        A(f"    if (s->c.{n} && !__asan_region_is_poisoned((void *)s->c.{n}, {o['str_size']})) {{ c->c.{n} = malloc({o['str_size']}); memcpy(c->c.{n}, s->c.{n}, {o['str_size']}); }} else c->c.{n} = NULL;")
     A("    return c;")
     A("}")
     A("void shim_destroy_clone(void *st) {")
@@ -187,7 +189,8 @@ def gen_shim(meta, canaries=None):
         A(f"    memset(out + offsetof({T}, c.{n_}), s->c.{n_} ? 1 : 0, sizeof(s->c.{n_}));")
     for o in dstrs:
         n_ = o["name"]
-        A(f"    if (s->c.{n_} && n + {o['str_size']} <= cap) {{ memcpy(out + n, s->c.{n_}, {o['str_size']}); n += {o['str_size']}; }}")
+        # (the tick callback can fire between a free() and the store of NULL: never read a block ASan considers dead)
+        A(f"    if (s->c.{n_} && n + {o['str_size']} <= cap && !__asan_region_is_poisoned((void *)s->c.{n_}, {o['str_size']})) {{ memcpy(out + n, s->c.{n_}, {o['str_size']}); n += {o['str_size']}; }}")
     A("    return n;")
     A("}")
     return "\n".join(L) + "\n"
